@@ -24,12 +24,9 @@ Nothing here calls the Lean model: the model is a pure function of the arguments
 from __future__ import annotations
 
 import json
-import subprocess
-import sys
 from typing import Any, Callable, Dict, List, Optional, Tuple
 
 from harness import rx_common as R
-from harness.common import VERIF
 
 RESERVED = frozenset("*|()?&+.^{} \t")
 # symbols of the fresh alphabets: letters, digits (they also occur inside quantifier braces), punctuation that is
@@ -247,7 +244,7 @@ def judge_steps(steps: List[dict], language: Optional[Callable] = None,
     `language(nfa, ast, sorted_sigma)` → None | (word, denoted?) judges compiled NFAs (C10); without it a
     compile step is judged on success / error type only (C11).  A compile step with valid=None is judged on
     its language only (if it compiles and carries an AST).  `extra_ops[op](step)` executes further, unjudged
-    kinds of steps (calls a check makes besides the API, recorded so that a history can be replayed)."""
+    kinds of steps (whole cases of a check, or calls it makes besides the API) and may return failure texts."""
     import automata.base.exceptions as exceptions
     from automata.fa.nfa import NFA
     from automata.regex import regex as rx
@@ -318,7 +315,8 @@ def judge_steps(steps: List[dict], language: Optional[Callable] = None,
                 bad.append((i, f"{st['re1']!r} vs {st['re2']!r} over {sorted(sig)}: {txt}", dict(real=real, want=want)))
             st["_real"] = real          # for the caller's model comparison (not part of the replay)
         elif extra_ops and op in extra_ops:
-            extra_ops[op](st)
+            for what in (extra_ops[op](st) or []):
+                bad.append((i, what, {}))
         else:
             raise ValueError(op)
     return bad
@@ -330,67 +328,47 @@ def clean(steps: List[dict]) -> List[dict]:
 
 def describe(steps: List[dict], i: int) -> str:
     """One-line rendering of the calls before step i (for messages)."""
+    if i > 4:
+        return f"{i} earlier calls"
     out = []
     for st in steps[:i]:
         if st["op"] == "validate":
             out.append(f"validate({st['re']!r})")
         elif st["op"] == "compile":
             out.append(f"from_regex({st['re']!r}" + ("" if st["input_symbols"] is None else f", {''.join(st['input_symbols'])!r}") + ")")
-        elif st["op"] != "cmp":
-            out.append(f"{st['op']}({st['re']!r})")
-        else:
+        elif st["op"] == "cmp":
             out.append(f"compare({st['re1']!r}, {st['re2']!r}, {''.join(st['input_symbols'])!r})")
+        else:
+            txt = st.get("re", st.get("regex"))
+            out.append(f"{st['op']}({txt!r})" if txt is not None else f"{st['op']}({st.get('re1')!r}, {st.get('re2')!r})")
     return " → ".join(out) if out else "no earlier call"
 
 
-def confirm_fresh(module: str, steps: List[dict], timeout: int = 300) -> Optional[bool]:
-    """Re-run a program in a FRESH interpreter (same PYTHONPATH, i.e. the same library tree) through
-    `harness.ops.<module>.judge_program_json`: True = some step fails there too, False = every step is right
-    there (the failure needs more history than the program records), None = the child did not finish."""
-    code = ("import sys; from harness.ops import %s as M; "
-            "sys.exit(3 if M.judge_program_json(sys.stdin.read()) else 0)" % module)
-    try:
-        p = subprocess.run([sys.executable, "-c", code], input=json.dumps(clean(steps)), text=True, cwd=VERIF,
-                           stdout=subprocess.PIPE, stderr=subprocess.PIPE, timeout=timeout)
-    except subprocess.TimeoutExpired:
-        return None
-    if p.returncode == 3:
-        return True
-    if p.returncode == 0:
-        return False
-    return None
+def keys_of(st: dict) -> set:
+    """What a cache inside the library could be keyed by for this step: the alphabets it touches and the expression
+    texts it passes (harness/fresh.py tries recorded calls that share one of them first)."""
+    texts = [st[f] for f in ("re", "regex", "re1", "re2") if st.get(f) is not None]
+    ks = {("re", t) for t in texts}
+    if st.get("input_symbols") is not None:
+        ks.add(frozenset(st["input_symbols"]))
+    if st.get("input_symbols") is None or st.get("op") in ("validate", "case"):
+        ks.update(default_alphabet(t) for t in texts)
+    return ks
 
 
-def report_program(ctx, module: str, prog: dict, bad, history: List[dict], finding_key=None):
-    """Turn a failing program into a property failure with a replay that stands on its own: the program is
-    re-run in a fresh interpreter; if it does not fail there, the recorded history of this family (every
-    earlier program of the run, in order) is put in front of it."""
-    steps = clean(prog["steps"])
-    i, what, detail = bad[0]
-    fresh = confirm_fresh(module, steps)
-    replay_steps = steps
-    note = ""
-    if fresh is not True:
-        longer = clean(history) + steps
-        again = confirm_fresh(module, longer) if history else None
-        if again is True:
-            replay_steps = longer
-            i += len(history)
-            note = f" (only with the {len(history)} earlier calls of this run in front)"
-            ctx.stat("sequence_failure_needs_run_history")
-        else:
-            note = " (observed in this run; NOT reproduced in a fresh interpreter from the recorded calls)"
-            ctx.stat("sequence_failure_not_reproduced_fresh")
-    ctx.prop_fail(f"after {describe(prog['steps'], bad[0][0])}: {what}{note}",
-                  dict(kind="sequence", steps=replay_steps, failing_step=i, detail=R_json(detail)), finding_key)
-
-
-def report_failing(ctx, module: str, failing: list, history: List[dict], most: int = 4):
-    """Report the `most` shortest failing programs of a run (each one is confirmed in a fresh interpreter, which
-    costs a process start; the number of failing programs is in the generator statistics)."""
+def report_failing(ctx, failing: list, most: int = 4):
+    """Record the `most` shortest failing programs of a run as property failures.  Each record carries its own steps
+    (`_tail`) and its position in the module's call log (`_calls`): harness/fresh.py re-runs the one that will be
+    printed in a fresh interpreter and puts recorded earlier calls in front of it if it needs them."""
     failing = sorted(failing, key=lambda f: len(json.dumps(clean(f[0]["steps"]), default=repr)))
-    for prog, bad, n_before in failing[:most]:
-        report_program(ctx, module, prog, bad, history[:n_before])
+    for prog, bad, n_calls in failing[:most]:
+        steps = clean(prog["steps"])
+        i, what, detail = bad[0]
+        n = len(ctx.prop_fails)
+        ctx.prop_fail(f"after {describe(steps, i)}: {what}",
+                      dict(kind="sequence", steps=steps, failing_step=i, detail=R_json(detail)), None)
+        for f in ctx.prop_fails[n:]:
+            f["_tail"], f["_calls"] = steps, n_calls
     if len(failing) > most:
         ctx.note(f"{len(failing)} programs of calls over fresh alphabets had a wrong step; the {most} shortest are reported")
 
